@@ -14,7 +14,7 @@
    log-replication defects.  `classes h` = (double vote, stale vote counted, ack from diverged log, old-term
    commit, ack below voted term) are the decidable defect classes of a history. *)
 From Coq Require Import NArith List.
-From Agdb Require Import Raft RaftWitness RaftProofs RaftInv RaftLog RaftLogProofs.
+From Agdb Require Import Raft RaftWitness RaftProofs RaftInv RaftLog RaftLogProofs RaftLogMatch.
 Import ListNotations.
 Open Scope N_scope.
 
@@ -92,3 +92,38 @@ Theorem C28c_two_classes_not_enough : forall rv,
        committed_agree (run rv size evs)).
 Proof. exact two_classes_not_enough_C28c. Qed.
 Print Assumptions C28c_two_classes_not_enough.
+
+(* ------------------------------------------------------------------ towards a conditional theorem for (c)
+   LOG MATCHING, PROVED for the repaired election code (rr_fixed = the code in /repo), every cluster size other
+   than 1 and every adversarial event list, under the single hypothesis that the class ack-from-diverged-log does
+   not occur: if two nodes hold entries of the same term at index idx, their logs agree at every index <= idx
+   (so an (index, term) pair determines the entry, data included).  Proof: RaftLogWf.v, RaftLogMatch.v (inductive
+   invariant LI; C27_election_safety is used at every step).
+   This is step (1) of the standard safety argument.  NOT proved: committed_agree itself under the hypotheses
+   "no ack-from-diverged-log, no old-term-commit, no commit-without-quorum" (it needs leader completeness, C29). *)
+Theorem C28_log_matching_partial : forall size evs,
+  size <> 1 -> ack_diverged_b (c_hist (run rr_fixed size evs)) = false ->
+  forall a b, In a (c_nodes (run rr_fixed size evs)) -> In b (c_nodes (run rr_fixed size evs)) ->
+  forall idx ea eb, log_at (n_logs a) idx = Some ea -> log_at (n_logs b) idx = Some eb -> e_term ea = e_term eb ->
+  forall j, j <= idx -> log_at (n_logs a) j = log_at (n_logs b) j.
+Proof. exact RaftLogMatch.log_matching_partial. Qed.
+Print Assumptions C28_log_matching_partial.
+
+(* same hypothesis: every log is well formed — the entry at index idx carries index idx and a term <= the node's
+   term, and terms are sorted along the log *)
+Theorem C28_logs_wf_partial : forall size evs nd,
+  size <> 1 -> ack_diverged_b (c_hist (run rr_fixed size evs)) = false -> In nd (c_nodes (run rr_fixed size evs)) ->
+  (forall idx e, log_at (n_logs nd) idx = Some e -> e_index e = idx /\ e_term e <= n_term nd) /\
+  (forall i j ei ej, i <= j -> log_at (n_logs nd) i = Some ei -> log_at (n_logs nd) j = Some ej -> e_term ei <= e_term ej).
+Proof. exact RaftLogMatch.logs_wf_partial. Qed.
+Print Assumptions C28_logs_wf_partial.
+
+(* non-vacuity: a fault-free 3-node history (node 0 elected; two entries replicated to and committed on all three
+   nodes) satisfies the hypothesis (and has no old-term commit) *)
+Example C28_log_matching_nonvacuous :
+  let c := run rr_fixed 3 RaftLogMatch.wlog_ok in
+  ack_diverged_b (c_hist c) = false /\ old_term_commit_b (c_hist c) = false /\
+  map n_commit (c_nodes c) = [2; 2; 2] /\
+  map n_logs (c_nodes c) = [[mkEntry 1 1 11; mkEntry 2 1 12]; [mkEntry 1 1 11; mkEntry 2 1 12]; [mkEntry 1 1 11; mkEntry 2 1 12]].
+Proof. exact RaftLogMatch.wlog_ok_facts. Qed.
+Print Assumptions C28_log_matching_nonvacuous.
